@@ -258,6 +258,23 @@ impl ModuleRef {
         leave_scope();
     }
 
+    /// Verification hook (only with `--cfg petrichorit_des_verif`): the timer driver of this
+    /// module as `(deadline, number of registered entries)` per pending slot in queue order,
+    /// plus the time of the wake-up event the driver believes to be scheduled. `None` while the
+    /// module is executing an event (the driver is checked out then).
+    #[cfg(all(petrichorit_des_verif, feature = "async"))]
+    #[must_use]
+    pub fn verif_timer_snapshot(
+        &self,
+    ) -> Option<(Vec<(crate::time::SimTime, usize)>, Option<crate::time::SimTime>)> {
+        self.ctx
+            .async_ext
+            .read()
+            .driver
+            .as_ref()
+            .map(crate::time::Driver::verif_snapshot)
+    }
+
     /// Creates a gate on the current module, returning its ID.
     ///
     #[must_use]
